@@ -157,12 +157,24 @@ def build (cfg : Config) (inst : InstDict) (d : IDict) : Profile :=
 /-- `has_shape_annotated_features` -/
 def hasFeatures (cp : ClassProfile) : Bool := !cp.direct.isEmpty || !cp.inverse.isEmpty
 
+/-- delete the type keys `names` from every property of one direction -/
+def eraseTypesPP (names : List String) (pp : PropProfile) : PropProfile :=
+  pp.map fun (p, ks) => (p, names.foldl (fun d nm => Dict.erase d nm) ks)
+
+def eraseTypes (names : List String) (cp : ClassProfile) : ClassProfile :=
+  { direct := eraseTypesPP names cp.direct, inverse := eraseTypesPP names cp.inverse }
+
 /-- `_clean_class_profile`.  The keys of the profile are class IRIs while `_original_target_nodes`
-holds shape *names*, so with class targets no key is ever protected; and the inner deletion loop
-compares class IRIs with type keys, which never coincide.  What remains is: drop every class
-without features (one iteration suffices because dropping a class changes no other entry). -/
+holds shape *names*, so with class targets no key is ever protected.  Every class without features
+is dropped, and the references to its shape (type keys carrying the *name* of the shape, in the
+profiler's default namespace) are deleted from every property of every remaining class.  One
+iteration suffices: deleting a type key never empties the property dictionary of a class. -/
 def clean (cfg : Config) (prof : Profile) : Profile :=
-  if cfg.removeEmpty then prof.filter fun (_, cp) => hasFeatures cp else prof
+  if cfg.removeEmpty then
+    let names := (prof.filter fun (c, cp) => !hasFeatures cp && !cfg.protectedLabels.contains c).map
+      fun (c, _) => shapeName c "http://weso.es/shapes/"
+    (prof.filter fun (c, cp) => hasFeatures cp || cfg.protectedLabels.contains c).map fun (c, cp) => (c, eraseTypes names cp)
+  else prof
 
 structure Result where
   profile : Profile
@@ -170,10 +182,12 @@ structure Result where
   idict : IDict
 deriving Repr, Inhabited
 
-def run (cfg : Config) (g : Graph) : Result :=
-  let inst := Tracker.track cfg g
+/-- the profiler for a given selection of instances (class targets, or the nodes of a shape map) -/
+def runSel (cfg : Config) (inst : InstDict) (g : Graph) : Result :=
   let d := pass2 cfg inst g
   { profile := clean cfg (build cfg inst d), counts := initCounts cfg inst, idict := d }
+
+def run (cfg : Config) (g : Graph) : Result := runSel cfg (Tracker.track cfg g) g
 
 end Profiler
 end Shexer
